@@ -325,7 +325,7 @@ def finish_meta(rep, extra):
     rep.coverage.update(extra)
 
 
-def fit_budget(insts, budget_s, per_s=3.0, floor=40):
+def fit_budget(insts, budget_s, per_s=4.0, floor=40):
     """Keep every instance that is not predicted to pass (they need the ladder stage, which cert.certify runs last) and
     at most `cap` of the predicted-pass ones, cap growing with the remaining time budget -- so that a slow generation
     phase (loaded machine, degraded implementation) cannot starve the certification of the suspicious cases.
